@@ -104,8 +104,10 @@ def main():
             for k in ("round", "note"):
                 if k in prev:
                     meta[k] = prev[k]
-        shutil.copy(seed_dir / patch, out / "patch.diff")
-        shutil.copy(seed_dir / demo, out / "demo.py")
+        if (seed_dir / patch).resolve() != (out / "patch.diff").resolve():
+            shutil.copy(seed_dir / patch, out / "patch.diff")
+        if (seed_dir / demo).resolve() != (out / "demo.py").resolve():
+            shutil.copy(seed_dir / demo, out / "demo.py")
         meta["what_was_run"] = ("scratch worktree of /repo HEAD; demo on clean tree and with patch.diff applied; repository test suite with the patch "
                                "(junit compared with the clean tree); ./check <property> with VERIF_REPO=<scratch worktree> (source parsed and imported from it)")
         (out / "meta.json").write_text(json.dumps(meta, indent=1))
